@@ -218,7 +218,11 @@ func verifyClosure(c *Ctx) *Func {
 	return nil
 }
 
-func c11c(c *Ctx) {
+func c11c(c *Ctx) { c11cOnly(c, nil) }
+
+// c11cOnly runs the verifier-guard obligations, restricted to the guards whose
+// name contains one of the given substrings (all when nil).
+func c11cOnly(c *Ctx, only []string) {
 	v := verifyClosure(c)
 	if v == nil {
 		return
@@ -329,6 +333,17 @@ func c11c(c *Ctx) {
 		// verification inputs: key from the type switch, digest of the rebuilt STH, the parsed signature
 	}
 	for _, gd := range guards {
+		if only != nil {
+			keep := false
+			for _, o := range only {
+				if strings.Contains(gd.name, o) {
+					keep = true
+				}
+			}
+			if !keep {
+				continue
+			}
+		}
 		inst := "verify guard: " + gd.name
 		targets := gd.on
 		if targets == nil {
